@@ -261,7 +261,15 @@ def partition(rng, t0, t1, n_max=12, style=None):
         for x in w:
             cuts.append(cuts[-1] + (t1 - t0) * x / s)
     cuts[-1] = t1
-    out = [(cuts[i], cuts[i + 1]) for i in range(n) if cuts[i + 1] > cuts[i]]
+    # intervals must stay well above floating-point resolution of the absolute time (they are
+    # later divided by the clock rate k): relative length >= 1e-9, else merged into the next
+    min_len = 1e-9 * max(1.0, abs(t0), abs(t1))
+    kept = [cuts[0]]
+    for c in cuts[1:-1]:
+        if c - kept[-1] >= min_len and cuts[-1] - c >= min_len:
+            kept.append(c)
+    kept.append(cuts[-1])
+    out = [(kept[i], kept[i + 1]) for i in range(len(kept) - 1) if kept[i + 1] - kept[i] >= min_len]
     return out or [(t0, t1)]
 
 
